@@ -53,6 +53,8 @@ class LWorker(threading.Thread):
         self.budget = None
         self.nlines = 0
         self.where = None
+        self.stopped = False
+        self.tident = None
         self.record = None          # list of (file, line) of every line event, when recording
 
     def _global(self, frame, event, arg):
@@ -62,6 +64,9 @@ class LWorker(threading.Thread):
 
     def _local(self, frame, event, arg):
         if event == "line":
+            if threading.get_ident() != self.tident:
+                # a frame created by this worker (a generator, say) being run or finalised by another thread
+                return self._local
             self.nlines += 1
             if self.record is not None:
                 self.record.append((frame.f_code.co_filename, frame.f_lineno, frame.f_code.co_name))
@@ -70,11 +75,13 @@ class LWorker(threading.Thread):
                 if self.budget <= 0:
                     self.where = (frame.f_code.co_filename, frame.f_lineno, frame.f_code.co_name)
                     self.budget = None
+                    self.stopped = True
                     self.sched.ctl.release()
                     self.go.acquire()
         return self._local
 
     def run(self):
+        self.tident = threading.get_ident()
         self.go.acquire()
         sys.settrace(self._global)
         try:
@@ -117,10 +124,14 @@ class LineSched:
                 continue
             before = w.nlines
             w.budget = k
+            w.stopped = False
             w.go.release()
-            if not self.ctl.acquire(timeout=timeout):
-                self.ctl = threading.Semaphore(0)
-                raise LineTimeout("worker %d did not yield within %ss" % (tid, timeout))
+            while True:
+                if not self.ctl.acquire(timeout=timeout):
+                    self.ctl = threading.Semaphore(0)
+                    raise LineTimeout("worker %d did not yield within %ss" % (tid, timeout))
+                if w.finished or w.stopped:
+                    break               # (anything else would be a wake-up that is not this worker's)
             executed.append((tid, w.nlines - before if not w.finished else None))
             if not w.finished:
                 stood.append((tid,) + tuple(w.where))
@@ -1394,3 +1405,28 @@ def shared_write_census(ca):
     unknown = sorted(k for k in changed_all
                      if k not in allowed and not (k[0] == "userclass" and k[2] in install_attrs))
     return unknown, sorted(changed_all), n_ops
+
+
+# ============================================================================ class level (Global/ClassModel.v)
+
+def class_entry_indices(sa):
+    """{profile name: (table indices of the validators of the top-level class's collection / wrapper fields,
+    number of scalar fields)} for the class profiles"""
+    idx = {e["name"]: i for i, e in enumerate(sa["entries"])}
+    out = {}
+    for p in PROFILES:
+        if "kind" in p["tags"]:
+            continue
+        ns = declare(p)
+        ids, scalars, unknown = [], 0, []
+        for name, f in ns[p["top"]].get_all_fields_by_name().items():
+            t = field_tree(f)
+            if t[0] == "node":
+                if t[1] in idx:
+                    ids.append(idx[t[1]])
+                else:
+                    unknown.append(t[1])
+            else:
+                scalars += 1
+        out[p["name"]] = (ids, scalars, unknown)
+    return out
